@@ -5,11 +5,12 @@
    -- after any complete elements and trailing trivia, even an unfinished comment -- is rejected with the class
    "unterminated collection"; (b) a collection closed by the delimiter of the other kind, at any depth and whatever
    follows it, and (c) a closing delimiter at top level are rejected with the class "unmatched delimiter"; never a value.
-   PARTIAL: the classes for the other defects (odd map, dangling tag / discard / metadata marker, invalid tokens) and the
+   (d) a map literal over the fragment whose last key has no value is rejected with the class "invalid syntax".
+   PARTIAL: the classes for the other defects ( dangling tag / discard / metadata marker, invalid tokens) and the
    non-NULL message are decided by the correspondence run + oracle. *)
 From Coq Require Import ZArith NArith List Bool String.
 From Coq.Strings Require Import Byte.
-From Verif Require Import Lanes Common Values Scan Reader ReaderInv Configs FlagProofs TriviaProofs RoundTripGap RoundTripErr.
+From Verif Require Import Lanes Common Values Scan Reader ReaderInv Configs FlagProofs TriviaProofs RoundTripGap RoundTripErr RoundTripSet RoundTripMap.
 Import ListNotations.
 Local Open Scope N_scope.
 
@@ -62,6 +63,13 @@ Theorem C10_stray_closer_rejected_partial : forall c o m e g cl, In c all_cfgs -
   exists r s, run_doc c o m e = Ret r s /\ r_value r = None /\ r_eof r = false /\ r_err r = EUnmatched.
 Proof. exact stray_closer_rejected. Qed.
 
+(* (d) a map with an odd number of forms: entries, then a key, then the closing brace *)
+Theorem C10_odd_map_rejected_partial : forall c o m l g k tl, In c all_cfgs -> mapwf l (Some (g, k)) tl ->
+  slice m 0 (List.length (maptext l (Some (g, k)) tl)) = maptext l (Some (g, k)) tl ->
+  exists r s, run_doc c o m (N.of_nat (List.length (maptext l (Some (g, k)) tl))) = Ret r s /\
+              r_value r = None /\ r_err r = ESyntax /\ r_eof r = false.
+Proof. exact odd_map_rejected. Qed.
+
 (* the error found innermost travels outward unchanged through every enclosing collection *)
 Theorem C10_error_propagates_partial : forall c, In c all_cfgs -> forall o handler xe xh sort m e k, cwf k -> forall p,
   slice m p (List.length (ctext k)) = ctext k ->
@@ -80,6 +88,7 @@ Example C10_mismatched_example :
 Proof. exact mismatched_example. Qed.
 
 Print Assumptions C10_ill_formed_rejected_partial.
+Print Assumptions C10_odd_map_rejected_partial.
 Print Assumptions C10_stray_closer_rejected_partial.
 Print Assumptions C10_value_xor_error.
 Print Assumptions C10_reader_protocol.
